@@ -27,20 +27,22 @@ Theorem C17_uid_display_length : forall index time random,
 Proof. exact uid_display_length. Qed.
 Theorem C17_uid_from_str_no_panic : forall s, uid_from_str s <> Panic.
 Proof. exact uid_from_str_no_panic. Qed.
-(* for the record, the code before that commit (DESIGN F17): refuted for negative random parts -- witness, and
-   the whole class -- and only those *)
-Theorem C17_uid_pre_fix_refuted : exists index time random,
+Theorem C17_uid_from_str_non_ascii : forall s, is_ascii s = false -> uid_from_str s = Err ERR_UID_LEN.
+Proof. exact uid_from_str_non_ascii. Qed.
+(* for the record, `uid_from_str_pinned` = the code before that commit (DESIGN F17): the round trip is refuted for
+   negative random parts -- a witness, and the whole class -- and holds for the others *)
+Theorem C17_uid_text_refuted : exists index time random,
   index < 2 ^ 32 /\ time < 2 ^ 32 /\ (- 2 ^ 63 <= random < 2 ^ 63)%Z /\
-  uid_from_str_pre_fix (uid_display index time random) <> Ok (index, time, random).
-Proof. exact uid_pre_fix_refuted. Qed.
-Theorem C17_uid_pre_fix_negative_fails : forall index time random,
+  uid_from_str_pinned (uid_display index time random) <> Ok (index, time, random).
+Proof. exact uid_text_refuted. Qed.
+Theorem C17_uid_text_negative_fails : forall index time random,
   index < 2 ^ 32 -> time < 2 ^ 32 -> (- 2 ^ 63 <= random < 0)%Z ->
-  uid_from_str_pre_fix (uid_display index time random) = Err PIE_POS.
-Proof. exact uid_pre_fix_negative_fails. Qed.
-Theorem C17_uid_pre_fix_roundtrip : forall index time random,
+  uid_from_str_pinned (uid_display index time random) = Err PIE_POS.
+Proof. exact uid_text_negative_fails. Qed.
+Theorem C17_uid_pinned_roundtrip : forall index time random,
   index < 2 ^ 32 -> time < 2 ^ 32 -> (0 <= random < 2 ^ 63)%Z ->
-  uid_from_str_pre_fix (uid_display index time random) = Ok (index, time, random).
-Proof. exact uid_pre_fix_roundtrip. Qed.
+  uid_from_str_pinned (uid_display index time random) = Ok (index, time, random).
+Proof. exact uid_pinned_roundtrip. Qed.
 
 (* ---- BrickColor over the regenerated table: all 2^16 numbers ---- *)
 Theorem C17_brick_from_number_u16 : forall n, n < 65536 ->
